@@ -306,7 +306,7 @@ def analyse(text, label):
 
 INV_PERIOD = 20
 
-def round_order(thr, limit=400000):
+def round_order(thr, limit=400000, strict=True):
     """preferred global order of one round: the list of thread ids, one per event, in which GroupR.sched is asked to run the
     round.  It is found by a depth-first search on a sketch of the shared state (dg_state, dg_notify_tail, who sleeps), with the
     recorder's tickets as the preference and backtracking where the ticket order is ambiguous (the word returns to an earlier
@@ -322,7 +322,7 @@ def round_order(thr, limit=400000):
     The search only proposes an order: every step is checked by the model in Coq, a wrong proposal can only make the replay fail."""
     import bisect
     M32, M64 = 0xffffffff, (1 << 64) - 1
-    wakes, rets, stamp, deps = [], [], {}, {}
+    wakes, rets, stamp, deps, desig = [], [], {}, {}, {}
     th = {tid: t for (tid, t, _) in thr}
     for tid, t in th.items():
         wnote = None
@@ -351,6 +351,7 @@ def round_order(thr, limit=400000):
                 if w["note"] <= w0:
                     stamp[w["key"]] = max(stamp[w["key"]], w0 + 0.5)
                 deps.setdefault(w["key"], []).append((xt, xj))
+                desig[(xt, xj + 1)] = w["key"]          # the futex_wait_ret event is the one after the futex_wait note
                 break
     fallback = [tid for (_, tid) in sorted((stamp[(tid, j)], tid) for tid, t in th.items() for j in range(len(t)))]
 
@@ -373,13 +374,15 @@ def round_order(thr, limit=400000):
             return "m", "t"
         if k == 33:
             return "r", None
+        if k == 34:
+            return "k", None
         return "a", None
 
     def enabled(e, c, loc, cur, tail, sl):
-        if c == "a":
+        if c in ("a", "k"):
             return True
         if c == "r":
-            return (e.b != 0 or sl == "W") and (sl != "N" or e.b == 11)
+            return (not strict or e.b != 0 or sl == "W") and (sl != "N" or e.b == 11)
         if loc == "w":
             return e.a == ((cur & M32) if e.kind == 7 else cur)
         if loc == "g":
@@ -387,6 +390,21 @@ def round_order(thr, limit=400000):
         return e.a == tail
 
     tids = sorted(th)
+    gen_of = {}                      # events that observed dg_gen = g (exactly: the value they report)
+    for tid, t in th.items():
+        for j, c in enumerate(t):
+            e = c.e
+            if e.obj >= NQ_BASE or e.kind >= 100:
+                continue
+            if e.off == 0 and e.size == 8 and e.kind in (1, 4, 5, 6):
+                gen_of[(tid, j)] = e.a >> 32
+            elif e.off == 4 and e.kind == 1:
+                gen_of[(tid, j)] = e.a
+            elif e.kind == 32 and j + 1 < len(t) and t[j + 1].e.kind == 33 and t[j + 1].e.b != 11:
+                gen_of[(tid, j)] = e.a             # the kernel compared dg_gen with this value and found it equal
+    genleft = {}
+    for g in gen_of.values():
+        genleft[g] = genleft.get(g, 0) + 1
     users = sorted((c.e.seq, tid, j) for tid, t in th.items() for j, c in enumerate(t) if c.e.kind >= 100)
     callof = {}
     for tid, t in th.items():
@@ -460,6 +478,9 @@ def round_order(thr, limit=400000):
                     slp[u] = "W"
         elif c == "r":
             slp[tid] = "A"
+        g = gen_of.get((tid, pos[tid]))
+        if g is not None:
+            genleft[g] -= 1
         pos[tid] += 1
         order.append(tid)
 
@@ -467,17 +488,36 @@ def round_order(thr, limit=400000):
         steps += 1
         if steps > limit:
             return fallback, False
-        cands = []
+        # a FUTEX_WAKE takes effect anywhere between its note and the thread's next event: it is held back until a sleeper
+        # needs it (a futex_wait that returned 0 is next in some thread the sketch has not woken yet) or until nothing else can
+        # move.  Generation barrier (exact): every event that observed generation g precedes the leave that carries g -> g+1
+        cands, wk, want, wanted = [], [], False, []
         for t in tids:
             if pos[t] < len(th[t]):
                 e = th[t][pos[t]].e
                 c, loc = cls(e)
-                if (user_ok(t, pos[t], e) if c == "u" else enabled(e, c, loc, cur, tail, slp[t])) and \
-                        all(pos[x] > xj for (x, xj) in deps.get((t, pos[t]), ())):
+                if c == "k" and strict:
+                    wk.append((not all(pos[x] > xj for (x, xj) in deps.get((t, pos[t]), ())), stamp[(t, pos[t])], t))
+                elif c == "r" and e.b == 0 and slp[t] == "S" and strict:
+                    want = True
+                    wanted.append(desig.get((t, pos[t])))
+                elif user_ok(t, pos[t], e) if c == "u" else enabled(e, c, loc, cur, tail, slp[t]):
+                    if c == "m" and loc == "w" and e.kind == 6 and (e.a & 0xfffffffc) == 0xfffffffc and \
+                            genleft.get(e.a >> 32, 0) > 1:
+                        continue
                     cands.append((stamp[(t, pos[t])], t, c, loc))
         obs = [x for x in cands if x[2] == "o"]
         if obs:
             apply(min(obs)[1])
+            continue
+        if wk and want:
+            ready = [w for w in wk if not w[0]]
+            pick = [w for w in ready if (w[2], pos[w[2]]) in wanted] or ([w for w in ready] if None in wanted else [])
+            if pick:
+                apply(min(pick)[2])
+                continue
+        if wk and not cands:
+            apply(min(wk)[2])
             continue
         if cands:
             first = min(cands)
@@ -494,6 +534,11 @@ def round_order(thr, limit=400000):
             return fallback, False
         alts, (cur, tail, p0, s0, n0, x0) = stack[-1]
         pos, slp, X = dict(p0), dict(s0), xcopy(x0)
+        for g in genleft:
+            genleft[g] = 0
+        for (t2, j2), g in gen_of.items():
+            if pos[t2] <= j2:
+                genleft[g] += 1
         del order[n0:]
         apply(alts.pop(0))
     return order, True
@@ -521,7 +566,7 @@ def coq_rounds(name, alltr, allfin, chunk_events=14000, workers=4, timeout=900, 
         chunks.append(cur)
 
     def one(arg):
-        ci, part = arg
+        ci, part, strict = arg
         nums, combos = {}, {}
 
         def z(x):
@@ -544,15 +589,15 @@ def coq_rounds(name, alltr, allfin, chunk_events=14000, workers=4, timeout=900, 
         for k, key in enumerate(part):
             thr = byround[key]
             qs = ["(%s, [%s])" % (z(tid), "; ".join(ev(c) for c in t)) for (tid, t, _) in thr]
-            order, found = round_order(thr)
+            order, found = round_order(thr, strict=strict)
             defs.append("Definition qs%d : queues := [%s]." % (k, ";\n".join(qs)))
             defs.append("Definition ord%d : list Z := [%s]." % (k, "; ".join(z(tid) for tid in order)))
             calls.append("Eval vm_compute in concat (map (fun q => let '(i, d) := conform (snd q) in [i; d]) qs%d)." % k)
-            calls.append("Eval vm_compute in replay inv_b %d qs%d ord%d." % (period, k, k))
+            calls.append("Eval vm_compute in replay inv_b %d %s qs%d ord%d." % (period, "true" if strict else "false", k, k))
         body = ["Definition %s : Z := %d." % (nm, x) for x, nm in nums.items()]
         body += ["Definition %s (a b : Z) := mkEv %d %d 0 %d %d a b %d." % (nm, kk[0], kk[1], kk[2], kk[3], kk[4])
                  for kk, nm in combos.items()]
-        ok, vals, raw = driver.coq_eval("%s_%d" % (name, ci), ["Word", "Conc", "Gen_group", "Group", "GroupR", "GroupR_inv"],
+        ok, vals, raw = driver.coq_eval("%s_%d%s" % (name, ci, "" if strict else "r"), ["Word", "Conc", "Gen_group", "Group", "GroupR", "GroupR_inv"],
                                         "\n".join(body + defs + calls) + "\n", timeout=timeout)
         if not ok or len(vals) != 2 * len(part):
             raise RuntimeError("coq round evaluation failed: " + raw[-2500:])
@@ -560,10 +605,21 @@ def coq_rounds(name, alltr, allfin, chunk_events=14000, workers=4, timeout=900, 
     res = [None] * len(alltr)
     counts = {"rounds_total": len(keys), "rounds_replayed_on_global_model": 0, "rounds_not_replayed_trace_rejected": 0,
               "rounds_not_replayed_stuck_run": 0, "events_replayed_on_global_model": 0, "replayed_rounds_with_early_notification": 0,
-              "invariant_evaluations_false": 0, "early_submissions_in_model_runs": 0}
+              "invariant_evaluations_false": 0, "early_submissions_in_model_runs": 0,
+              "rounds_replayed_only_without_futex_result_check": 0}
     mism, model_early = [], {}
     with ThreadPoolExecutor(max_workers=workers) as ex:
-        results = [x for part in ex.map(one, list(enumerate(chunks))) for x in part]
+        results = [x for part in ex.map(one, [(ci, part, True) for ci, part in enumerate(chunks)]) for x in part]
+    # rounds that do not replay with "a futex_wait that returned 0 was woken by the model" are tried again without that one
+    # requirement (GroupR.kernel_ok): where a FUTEX_WAKE took effect between its note and the waker's next event is not recorded
+    again = [key for key, conf, rp in results
+             if all(conf[2 * j] == -1 and conf[2 * j + 1] == 1 for j in range(len(byround[key]))) and rp[1] != 0]
+    relaxed = set()
+    if again:
+        second = {key: (conf, rp) for key, conf, rp in one((0, again, False))}
+        results = [(key, conf, second[key][1]) if key in second and second[key][1][1] == 0 else (key, conf, rp)
+                   for key, conf, rp in results]
+        relaxed = {key for key in second if second[key][1][1] == 0}
     for key, conf, rp in results:
         thr = byround[key]
         allok = True
@@ -607,6 +663,7 @@ def coq_rounds(name, alltr, allfin, chunk_events=14000, workers=4, timeout=900, 
                          "detail": {"seed": key[0], "round": key[1], "problems": problems}})
         else:
             counts["rounds_replayed_on_global_model"] += 1
+            counts["rounds_replayed_only_without_futex_result_check"] += key in relaxed
             counts["events_replayed_on_global_model"] += nev
             counts["replayed_rounds_with_early_notification"] += early
             counts["early_submissions_in_model_runs"] += len(early_regs)
